@@ -165,6 +165,28 @@ def _replay(job):
                         "%s: filtered %s vs selected-only %s" % (
                             {k: case[k] for k in ("inst", "mask", "poison")},
                             str(ra)[:120], str(rb)[:120])))
+    # --- bin widths / default accuracies are functions of the finite
+    # selected values: invalid values among them change nothing
+    from dclab import kde_methods as km
+    for nm, arr in (("deform", x[idx]), ("area_um", y[idx])):
+        arr = np.asarray(arr, dtype=float)
+        fin = arr[np.isfinite(arr)]
+        if len(fin) < 3 or len(fin) == len(arr) or np.ptp(fin) == 0:
+            continue
+        for fname in ("bin_width_doane", "bin_width_percentile"):
+            fn = getattr(km, fname)
+            ra, rb = call(lambda: fn(arr)), call(lambda: fn(fin))
+            n += 1
+            if not same(ra, rb, rtol=1e-12):
+                out.append(("invalid values among the selected events "
+                            "influence %s" % fname,
+                            "%s: %s vs %s" % (nm, str(ra)[:60], str(rb)[:60])))
+        ra = call(lambda: dclab.rtdc_dataset.RTDCBase.get_kde_spacing(arr))
+        rb = call(lambda: dclab.rtdc_dataset.RTDCBase.get_kde_spacing(fin))
+        n += 1
+        if not same(ra, rb, rtol=1e-12):
+            out.append(("invalid values among the selected events influence "
+                        "the default kde spacing", nm))
     # --- density estimates use only the events that are valid in both
     # features: compare with a dataset that does not contain the others
     for xs in ("linear", "log"):
